@@ -13,6 +13,9 @@ from tsv.base import Prop, fail
 
 GROUPS = ['{a}', '[a]', '{b}', '[c]', '{}']      # '{a}' twice below = duplicates
 MALFORMED = ['{a]', '[a}', 'a', '{a', 'a}']
+# material whose content itself starts / ends with delimiters (random part)
+RICH = ['{{p}q}', '[[t]]', '{\\textbf{x}}', '{a{b}}', '{{a}b}', '[\\cite[p]]', '{[x]}',
+        '[{y}]', '{ a }', '{\n}', '{a}{b}', '[]', '{{}}', '[a]]', '{{a}']
 INITIAL = [[], ['{a}'], ['{a}', '[b]'], ['{a}', '{a}'], ['[c]', '{b}', '{a}']]
 
 
@@ -29,10 +32,12 @@ def mk(text, as_obj):
     return cls(text[1:-1])
 
 
-def ops_for(n, reduced=False):
+def ops_for(n, reduced=False, rich=False):
     """all operations offered on a list of length n"""
     ops = []
     mats = [(g, o) for g in GROUPS for o in (True, False)]
+    if rich:
+        mats += [(g, o) for g in RICH for o in (True, False)]
     if reduced:
         mats = [('{a}', True), ('[c]', False), ('{b}', True)]
     for g, o in mats:
@@ -56,6 +61,11 @@ def ops_for(n, reduced=False):
     if not reduced:
         ops.append(['extend', ['{a}'], [False]])
         ops.append(['extend', [], []])
+    if rich:
+        for g in RICH:
+            ops.append(['insert', n // 2, g, False])
+            ops.append(['remove', g, False])
+        ops.append(['extend', RICH[:3], [False, True, False]])
     for g in (['{a}', '[c]'] if reduced else ['{a}', '[a]', '{b}', '[c]', '{zz}']):
         ops.append(['remove', g, True])
         if not reduced:
@@ -195,6 +205,14 @@ def observe(owner, L, step, op):
         if not isinstance(g, want):
             return fail('args-not-groups', 'step %d %r: element %r is %s' % (
                 step, op, t, type(g).__name__))
+    # the read-only list protocol: truth value, reversed iteration, membership
+    # and counting by (textually equal) group
+    if bool(args) != bool(L) or [str(g) for g in reversed(args)] != L[::-1]:
+        return fail('args!=list', 'step %d %r: bool/reversed disagree with the model %r' % (step, op, L))
+    for t in sorted(set(L) | {'{zz}', '[a]'}):
+        if (mk(t, True) in args) != (t in L) or args.count(mk(t, True)) != L.count(t):
+            return fail('args!=list', 'step %d %r: membership/count of %s: in=%r count=%r, model %r'
+                        % (step, op, t, mk(t, True) in args, args.count(mk(t, True)), L))
     if str(args) != ''.join(L):
         return fail('args-serialisation', 'step %d %r: str(args)=%r, concatenation %r'
                     % (step, op, str(args), ''.join(L)))
@@ -268,7 +286,7 @@ class C18(Prop):
             init = rng.choice(INITIAL)
             L, hist = list(init), []
             for _ in range(rng.randint(4, 40)):
-                op = rng.choice(ops_for(len(L), False))
+                op = rng.choice(ops_for(len(L), False, rich=(j % 2 == 1)))
                 apply_model(L, op)
                 hist.append(op)
             yield k, {'initial': init, 'ops': hist, 'random': True}
